@@ -349,6 +349,11 @@ class Interp:
 
     def st_For(self, st, fr):
         it = self.ev(st.iter, fr)
+        if isinstance(it, SOpt):
+            from .models import resolve_opt
+            it = resolve_opt(self.ctx, it)
+            if it is None:
+                raise PyRaise(TypeError, "'NoneType' object is not iterable")
         handler = getattr(self, "loop_handler", None)
         if isinstance(it, Sym):
             if handler is None:
